@@ -73,8 +73,26 @@ THEOREMS = [
     "C05.streamParsers_consume",
     "C05.nomRef_contract",
     "C05.parseDurationOld_counterexample",
+    # --- third part (Model3 / Lemmas3 / Lemmas4 / Theorems3)
+    # the round trip of the fixed masker: unmask(table, mask(s)) = s for every text
+    "C05.mask_roundtrip",
+    "C05.mask_roundtrip_holds",
+    "C05.prepare_roundtrip",
+    # parse_when_clause as the code has it now (recursion through balanced parentheses), its depth
+    "C05.whenStep_shorter",
+    "C05.whenFold_no_panic",
+    "C05.leafStrip_no_panic",
+    "C05.whenShape_total",
+    "C05.whenDepth_le_length",
+    "C05.whenDepth_stable",
+    "C05.whenDepth_4k",
+    # Query::variables / extract_variables, action argument splitting, parse_import_spec
+    "C05.extractVars_total",
+    "C05.queryVars_no_panic",
+    "C05.actionArgs_no_panic",
+    "C05.importSpec_no_panic",
 ]
-LEAN_TARGETS = ["RreModel.C05.Theorems", "RreModel.C05.Theorems2"]
+LEAN_TARGETS = ["RreModel.C05.Theorems", "RreModel.C05.Theorems2", "RreModel.C05.Theorems3"]
 N = {"quick": 14000, "thorough": 200000}
 ROBUST_N = {"quick": 12000, "thorough": 150000}
 ROBUST_BUDGET_S = {"quick": 75, "thorough": 700}
@@ -121,7 +139,11 @@ RULE = ("PROOF PART: cases = corpus + every string of length <= 3 over {e-acute,
         "parse_aggregate_query, NestedQueryParser::has_nested/parse, parse_value through a condition value and through an "
         "assignment (via mask/unmask), all seven public nom parsers of stream_syntax.rs, the text layer (PU), the rule name through "
         "mask+unmask (PN), parse_accumulate_condition through a rule (AC), extract_module_from_context through parse_with_modules (MC), "
-        "parse_rule_attributes through a rule (AT)); inputs include placeholder-looking text (U+0001 <digits> U+0002 with indices "
+        "parse_rule_attributes through a rule (AT); third group, fixed counts per run: WT = the ConditionGroup tree of parse_when_clause through a rule "
+        "(every nesting form - parentheses single/doubled/padded, !, !(, exists(, forall(, && / || - to depth 3 around three bodies + 450 random "
+        "trees/soups; predicted tree, an Err of the regex-driven leaf parser agrees), NV = NestedQueryParser::parse(s).variables() (600), FA / MA = the "
+        "positional arguments of `foo(<s>)` / `$Obj.set(<s>)` (350 each; the method-call regex never matches under rexile, MA is predicted as the custom "
+        "action the code builds), IM = the imports of `defmodule B { import: <s> }` through parse_with_modules (350)); inputs include placeholder-looking text (U+0001 <digits> U+0002 with indices "
         "beyond the table, 20-digit and signed indices, raw delimiters). The real code runs in the harness process (a child of "
         "check.py; panics caught with their payload, a dead process is bisected to the killing case); the Lean model predicts "
         "ok <canonical result> | err | fine(=ok-or-err) per case; predictions are diffed and Spec.holds (no panic/crash/hang) "
@@ -147,6 +169,9 @@ TRUSTED = [
     "str::parse::<usize>/<u64> acceptance is modelled by parseUsize (optional +, ASCII digits, <= 2^64-1: a 64-bit target); usize::to_string by Nat.toDigits 10",
     "regexes around the new kernels (rule/when-then/attribute regexes) are not modelled: the driver predicts PN/AC/MC/AT only when the cleaned text has "
     "the wrapper's exact shape, otherwise `-` (oracle only); `\\b` and `\"[^\"]*\"` of parse_rule_attributes by small scanners (ASCII only)",
+    "WT/FA/MA/IM: the rule / when-then / defmodule / function-binding regexes around the kernels are not modelled: the driver predicts only for payloads "
+    "without quotes, braces, `;`, line breaks, comment markers, U+0001/U+0002 (and `$ : , [ ]` / keywords for WT, `$ = ( )` for FA/MA), otherwise `-`; "
+    "a WT prediction is conditional on the regex-driven leaf parser (`iferr`: impl Err agrees, impl Ok must show the predicted tree)",
     "NOT modelled (search only): the rexile regex engine, chrono, formatting; stack bytes per frame are measured, not proved",
     "harness/src/bin/c05.rs, Driver/C05.lean glue, check.py diff",
 ]
@@ -157,6 +182,9 @@ ASSUMPTIONS = [
     "f64 literal may underflow to 0; it over-approximates the executed slices; the numeric results themselves are C01's subject",
     "the i32 paren_depth counters of split_accumulate_parts/split_pattern_parts are modelled with overflow = panic; the no-panic theorems carry the "
     "explicit hypothesis `chars < 2^31` (a 2 GiB input overflows: splitAccParts_i32_counterexample, outside the 4 KiB quantifier)",
+    "mask_roundtrip carries the machine range of the table index as its only hypothesis (text length <= usize::MAX chars; a Rust String has at most isize::MAX bytes)",
+    "parse_method_args is not reachable through the public API at present (METHOD_CALL_REGEX `\\$(\\w+)\\.(\\w+)...` never matches under rexile: `$Obj.set(1)` becomes "
+    "ActionType::Custom{action_type: set}); its model methodArgs has a theorem but no driven entry - MA observes what the code does and would show `ok method` if the regex started to match",
     "depth fuel = chars + 1 per recursive kernel: Rust stack use is (frames per level) x (bytes per frame), measured by the 4 KiB chains on an 8 MiB stack",
     "the search stream caps `when` leaves at 40 bytes so that it does not only re-find F-C05h (condition_regex ~quartic); F-C05h is probed separately",
 ]
@@ -170,7 +198,12 @@ LEVEL_TEXT = ("Lean 4 theorems (kernel-checked, for every string and every Unico
               "unmasked twice (forged placeholder indices; direct table indexing is refuted); strip_comments / mask_string_literals / unmask "
               "(total for every text incl. raw U+0001/U+0002, overflowing or out-of-range placeholder indices), the accumulate kernels, "
               "extract_module_from_context, parse_rule_attributes' slices, apply_operator's branches, and the nom stream grammar over abstract "
-              "primitive combinators (no panic for any primitives; proper-suffix progress under their contract); from the generic lemmas "
+              "primitive combinators (no panic for any primitives; proper-suffix progress under their contract); the ROUND TRIP of the fixed masker "
+              "(mask_roundtrip: unmask(table, mask_string_literals(s)) = s for every text below 2^64 chars); parse_when_clause as the code has it now - one "
+              "call as a step function whose recursive calls (inner text of balanced parentheses, || / && parts, !, exists(, forall() are all on strictly "
+              "shorter strings (whenStep_shorter), no panic for every builder (whenFold_no_panic), call-tree height <= chars + 1 with any budget "
+              "(whenDepth_le_length; <= 8194 frames at 4 KiB) - the outer-parentheses slice of parse_single_condition, extract_variables' index loops, "
+              "the argument splitting of actions and parse_import_spec; from the generic lemmas "
               "boundary_of_charIndices / ascii_delim_boundary / find_plus_len_boundary. Tied to the Rust code by a differential check "
               "(model prediction vs implementation per input) and supported by a labelled robustness search over all seven entry "
               "points in child processes. PARTIAL: rexile, the internals of nom's primitives and stack bytes are outside the model.")
@@ -221,6 +254,9 @@ def agree(case, impl, model):
         return impl == "err" or impl.startswith("err ") or impl == "ok" or impl.startswith("ok ")
     if model == "panic":
         return impl.startswith("panic")
+    if model.startswith("iferr "):
+        # the tree is predicted, the regex-driven leaf parser is not: an Err agrees, an Ok must be the predicted one
+        return impl == "err" or impl.startswith("err ") or impl == model[6:]
     return impl == model
 
 
